@@ -162,6 +162,13 @@ class Contract:
         self.frame_ = (set(fields), lists, sets)
         return self
 
+    def param_value(self, name, fn):
+        """fn(eng, st) -> executor value used for the parameter instead of a plain symbolic Val."""
+        if not hasattr(self, "param_values"):
+            self.param_values = {}
+        self.param_values[name] = fn
+        return self
+
     def setup(self, fn):
         """fn(eng, st) run before execution (register models, shared fields, overrides)."""
         self.setup_.append(fn)
@@ -355,6 +362,9 @@ def _verify(con: Contract, pack: Pack, modular_contracts: dict, res: FuncResult)
         st.assume(eng.external_ref_fact(st, term))
         params[n] = term
         sv = SV(term, hint=t.hint)
+        if n in getattr(con, "param_values", {}):
+            # a parameter of concrete shape holding symbolic parts (e.g. a dict of symbolic values)
+            sv = con.param_values[n](eng, st)
         if n in [p.arg for p in a.kwonlyargs]:
             kwvals[n] = sv
         else:
